@@ -68,6 +68,7 @@ struct System {
   std::function<std::vector<std::vector<std::string>>(const std::vector<std::string>&)> zero_families;
   bool pointwise_admissibility;  // an inadmissible (assignment, point) pair drops only that point, not the whole assignment
   int singular_axis = -1;  // coordinate whose zero plane is outside the domain (r = 0 of the axisymmetric solutions): no boundary point there
+  bool no_default_ball = false;  // skip the default-centred assignments (systems whose defaults are outside the reference model's admissible set)
   bool no_boundary_points = false;  // do not append the per-assignment boundary points (coordinate = length parameter, coordinate planes)
   bool base_from_default;  // base = library defaults x distinct factors in (1, 1.07) instead of the generic base
   int max_dev_quick, max_dev_thorough;
